@@ -14,11 +14,20 @@ fn make_image(dir: &Path, spec: &str) -> bool {
     run.ended && dir.join("m.mv2").exists()
 }
 
+/// opens the file and reads its table; Tantivy's scratch-directory lock can be transiently busy on a
+/// loaded machine (it has nothing to do with the memory file): retry a few times before reporting
 fn open_table(path: &Path) -> Result<Vec<Row>, String> {
-    let p = path.to_path_buf();
-    match std::panic::catch_unwind(move || Memvid::open(&p).map(|mut m| table_of(&mut m))) {
-        Ok(Ok(t)) => Ok(t), Ok(Err(e)) => Err(e.to_string()), Err(_) => Err("panic".into()),
+    let mut last = String::new();
+    for attempt in 0..6 {
+        let p = path.to_path_buf();
+        match std::panic::catch_unwind(move || Memvid::open(&p).map(|mut m| table_of(&mut m))) {
+            Ok(Ok(t)) => return Ok(t),
+            Ok(Err(e)) => { last = e.to_string(); if !last.contains("LockBusy") { return Err(last); } }
+            Err(_) => return Err("panic".into()),
+        }
+        std::thread::sleep(std::time::Duration::from_millis(150 * (attempt + 1)));
     }
+    Err(format!("inconclusive: {}", last))
 }
 
 pub fn run(seed: u64, n: usize, tier: &str, w: &mut dyn std::io::Write) {
@@ -69,6 +78,7 @@ pub fn run(seed: u64, n: usize, tier: &str, w: &mut dyn std::io::Write) {
                         let res = open_table(&d.join("m.mv2"));
                         drop(g);
                         match res { Ok(t) => { if &t == reference { verdict = "recovered-same".into(); } else { verdict = "recovered-different".into(); detail = format!("{} frames vs {} after an uninterrupted recovery (second kill at {})", t.len(), reference.len(), k2); } }
+                                    Err(e) if e.starts_with("inconclusive") => { verdict = "inconclusive".into(); detail = e; }
                                     Err(e) => { verdict = "recovery-failed".into(); detail = format!("{} (second kill at {})", e, k2); } }
                     }
                     results.lock().unwrap().push((k, verdict, detail));
